@@ -27,7 +27,7 @@ extern "C" __attribute__((used)) const char *__asan_default_options() {
   return "detect_leaks=0:exitcode=77:abort_on_error=0:halt_on_error=1:detect_stack_use_after_return=0:allocator_may_return_null=1:handle_segv=1:print_stacktrace=1";
 }
 extern "C" __attribute__((used)) const char *__ubsan_default_options() {
-  return "halt_on_error=1:print_stacktrace=1:exitcode=77";
+  return "halt_on_error=0:print_stacktrace=1:exitcode=77";
 }
 
 // ------------------------------------------------------------------ encoding helpers
@@ -479,8 +479,9 @@ static void run_child(int result_fd) {
     if (WIFSIGNALED(status)) snprintf(line, sizeof line, "X signal %d\n", WTERMSIG(status));
     else snprintf(line, sizeof line, "X exit %d\n", WEXITSTATUS(status));
     std::string out = line;
-    if (!(WIFEXITED(status) && WEXITSTATUS(status) == 0)) {
-      std::string err = read_file_raw(errpath);
+    std::string err0 = read_file_raw(errpath);
+    if (!(WIFEXITED(status) && WEXITSTATUS(status) == 0) || err0.find("runtime error:") != std::string::npos) {
+      std::string err = err0;
       size_t sum = err.rfind("SUMMARY: ");
       std::string summary = sum == std::string::npos ? "" : err.substr(sum, err.find('\n', sum) - sum);
       size_t first = err.find("ERROR: AddressSanitizer");
